@@ -358,6 +358,14 @@ func panicClass(v any) string {
 	return "other-" + m
 }
 
+// parseTimeout is the watchdog of one parser.Parse call: 2 s (VERIF_C03_PARSE_TIMEOUT_MS overrides, for probing).
+func parseTimeout() time.Duration {
+	if ms, err := strconv.Atoi(os.Getenv("VERIF_C03_PARSE_TIMEOUT_MS")); err == nil && ms > 0 {
+		return time.Duration(ms) * time.Millisecond
+	}
+	return 2 * time.Second
+}
+
 // parseOracle evaluates the parser part of the property on one input.
 func parseOracle(src string, builtins func() parser.Builtins) parseReport {
 	ch := make(chan parseOut, 1)
@@ -375,7 +383,7 @@ func parseOracle(src string, builtins func() parser.Builtins) parseReport {
 	var out parseOut
 	select {
 	case out = <-ch:
-	case <-time.After(2 * time.Second):
+	case <-time.After(parseTimeout()):
 		return parseReport{Status: "violation", Key: "parse-hang", Detail: "parser.Parse did not return within 2 s", Fatal: true}
 	}
 	if out.panicV != nil {
@@ -478,31 +486,46 @@ func runC03Worker(cfg Config, r *Result) {
 		if err != nil {
 			os.Exit(0)
 		}
-		b, err := hex.DecodeString(strings.TrimSpace(line))
-		if err != nil {
-			os.Exit(2)
+		var reps []parseReport
+		fatal := false
+		for _, f := range strings.Fields(line) {
+			src := ""
+			if f != "-" { // "-" stands for the empty source
+				b, err := hex.DecodeString(f)
+				if err != nil {
+					os.Exit(2)
+				}
+				src = string(b)
+			}
+			rep := parseOracle(src, evaluator.BuiltinDecls)
+			reps = append(reps, rep)
+			if rep.Fatal {
+				fatal = true
+				break
+			}
 		}
-		rep := parseOracle(string(b), evaluator.BuiltinDecls)
-		enc.Encode(rep)
+		enc.Encode(reps)
 		out.Flush()
-		if rep.Fatal {
+		if fatal {
 			os.Exit(4)
 		}
 	}
 }
 
 type parseWorker struct {
-	cmd *exec.Cmd
-	in  io.WriteCloser
-	out *bufio.Reader
+	cmd   *exec.Cmd
+	in    io.WriteCloser
+	lines chan string // answers of the worker; closed when it dies
+	timer *time.Timer
 }
 
-func startParseWorker() (*parseWorker, error) {
+func startParseWorker(env ...string) (*parseWorker, error) {
 	exe, err := os.Executable()
 	if err != nil {
 		return nil, err
 	}
 	cmd := exec.Command(exe, "C03-worker")
+	cmd.Env = append(os.Environ(), env...)
 	in, err := cmd.StdinPipe()
 	if err != nil {
 		return nil, err
@@ -511,54 +534,126 @@ func startParseWorker() (*parseWorker, error) {
 	if err != nil {
 		return nil, err
 	}
-	cmd.Stderr = os.Stderr
+	cmd.Stderr = io.Discard // a fatal Go error (stack exhaustion) prints megabytes; the death itself is what is reported
 	if err := cmd.Start(); err != nil {
 		return nil, err
 	}
-	return &parseWorker{cmd: cmd, in: in, out: bufio.NewReaderSize(o, 1<<20)}, nil
+	w := &parseWorker{cmd: cmd, in: in, lines: make(chan string, 1), timer: time.NewTimer(time.Hour)}
+	go func() {
+		rd := bufio.NewReaderSize(o, 1<<20)
+		for {
+			line, err := rd.ReadString('\n')
+			if err != nil {
+				close(w.lines)
+				return
+			}
+			w.lines <- line
+		}
+	}()
+	return w, nil
 }
 
 func (w *parseWorker) kill() {
 	w.in.Close()
 	w.cmd.Process.Kill()
 	w.cmd.Wait()
+	w.timer.Stop()
 }
 
-// ask sends one source; a missing answer within 6 s or a dead worker is itself a report.
-func (w *parseWorker) ask(src string) (parseReport, bool) {
-	type res struct {
-		rep parseReport
-		err error
+// askBatch sends sources and returns the reports the worker produced for a prefix of them
+// (all of them unless it died or hung on one). alive = false: the worker must be replaced.
+func (w *parseWorker) askBatch(srcs []string) (reps []parseReport, alive bool) {
+	var b strings.Builder
+	for i, s := range srcs {
+		if i > 0 {
+			b.WriteByte(' ')
+		}
+		if s == "" {
+			b.WriteByte('-')
+		} else {
+			b.WriteString(hex.EncodeToString([]byte(s)))
+		}
 	}
-	ch := make(chan res, 1)
-	go func() {
-		if _, err := io.WriteString(w.in, hex.EncodeToString([]byte(src))+"\n"); err != nil {
-			ch <- res{err: err}
-			return
+	b.WriteByte('\n')
+	if _, err := io.WriteString(w.in, b.String()); err != nil {
+		return nil, false
+	}
+	if !w.timer.Stop() {
+		select {
+		case <-w.timer.C:
+		default:
 		}
-		line, err := w.out.ReadString('\n')
-		if err != nil {
-			ch <- res{err: err}
-			return
-		}
-		var rep parseReport
-		err = json.Unmarshal([]byte(line), &rep)
-		ch <- res{rep: rep, err: err}
-	}()
+	}
+	w.timer.Reset(parseTimeout()*time.Duration(len(srcs)) + 20*time.Second)
 	select {
-	case x := <-ch:
-		if x.err != nil {
-			return parseReport{Status: "violation", Key: "parse-process-died",
-				Detail: "the process running parser.Parse died (fatal error such as stack exhaustion or out of memory, which recover cannot catch): " + x.err.Error(), Fatal: true}, false
+	case line, ok := <-w.lines:
+		if !ok {
+			return nil, false
 		}
-		return x.rep, !x.rep.Fatal
-	case <-time.After(8 * time.Second):
-		return parseReport{Status: "violation", Key: "parse-hang", Detail: "no answer from the parse worker within 8 s", Fatal: true}, false
+		if err := json.Unmarshal([]byte(line), &reps); err != nil {
+			return nil, false
+		}
+		if n := len(reps); n > 0 && reps[n-1].Fatal {
+			return reps[:n-1], false
+		}
+		return reps, len(reps) == len(srcs)
+	case <-w.timer.C:
+		return nil, false
 	}
 }
 
-// parsePool runs the parser oracle over srcs with nw workers; results keep the order of srcs.
+// ask runs one source on this worker; a missing answer or a dead worker is itself a report.
+func (w *parseWorker) ask(src string) (parseReport, bool) {
+	reps, alive := w.askBatch([]string{src})
+	if len(reps) == 1 {
+		return reps[0], alive
+	}
+	// no report: find out why with the worker's own watchdog answer, if any
+	return parseReport{Status: "violation", Key: "parse-process-died",
+		Detail: "the process running parser.Parse hung or died (a fatal error such as stack exhaustion or out of memory cannot be caught by recover)", Fatal: true}, false
+}
+
+// confirmFatal re-runs, twice, on a fresh worker with a 10 s watchdog, an input on which a worker
+// hung or died, so that a slow machine is never reported as a hang. The worker's own watchdog
+// tells a hang (it answers parse-hang before exiting) from a death (no answer).
+func confirmFatal(src string) parseReport {
+	var last parseReport
+	for k := 0; k < 2; k++ {
+		w, err := startParseWorker("VERIF_C03_PARSE_TIMEOUT_MS=10000")
+		if err != nil {
+			return parseReport{Status: "violation", Key: "parse-worker-start", Detail: err.Error()}
+		}
+		if _, err := io.WriteString(w.in, hex.EncodeToString([]byte(src))+"\n"); err != nil {
+			w.kill()
+			continue
+		}
+		var reps []parseReport
+		select {
+		case line, ok := <-w.lines:
+			if ok {
+				json.Unmarshal([]byte(line), &reps)
+			}
+		case <-time.After(40 * time.Second):
+		}
+		w.kill()
+		if len(reps) == 1 && !reps[0].Fatal {
+			return reps[0]
+		}
+		if len(reps) == 1 {
+			last = reps[0]
+			last.Detail = "parser.Parse did not return within 2 s; confirmed twice on a fresh process with a 10 s limit"
+		} else {
+			last = parseReport{Status: "violation", Key: "parse-process-died", Fatal: true,
+				Detail: "the process running parser.Parse died without an answer (fatal error such as stack exhaustion or out of memory, which recover cannot catch); confirmed twice on a fresh process"}
+		}
+	}
+	return last
+}
+
+// parsePool runs the parser oracle over srcs with nw workers in batches; results keep the order of
+// srcs. Sources of a batch on which the worker hung or died are re-run one by one.
 func parsePool(srcs []string, nw int) []parseReport {
+	const batch = 48
 	reps := make([]parseReport, len(srcs))
 	var next int
 	var mu sync.Mutex
@@ -575,24 +670,34 @@ func parsePool(srcs []string, nw int) []parseReport {
 			}()
 			for {
 				mu.Lock()
-				i := next
-				next++
+				lo := next
+				next += batch
 				mu.Unlock()
-				if i >= len(srcs) {
+				if lo >= len(srcs) {
 					return
 				}
-				if w == nil {
-					var err error
-					if w, err = startParseWorker(); err != nil {
-						reps[i] = parseReport{Status: "violation", Key: "parse-worker-start", Detail: err.Error()}
-						continue
+				hi := min(lo+batch, len(srcs))
+				for lo < hi {
+					if w == nil {
+						var err error
+						if w, err = startParseWorker(); err != nil {
+							for i := lo; i < hi; i++ {
+								reps[i] = parseReport{Status: "violation", Key: "parse-worker-start", Detail: err.Error()}
+							}
+							break
+						}
 					}
-				}
-				rep, alive := w.ask(srcs[i])
-				reps[i] = rep
-				if !alive {
-					w.kill()
-					w = nil
+					got, alive := w.askBatch(srcs[lo:hi])
+					copy(reps[lo:], got)
+					lo += len(got)
+					if !alive {
+						w.kill()
+						w = nil
+						if lo < hi { // srcs[lo] is the one the worker hung or died on
+							reps[lo] = confirmFatal(srcs[lo])
+							lo++
+						}
+					}
 				}
 			}
 		}()
@@ -699,6 +804,9 @@ func tokenKinds() ([]string, error) {
 			return nil, fmt.Errorf("token type %s (%d) has no representative lexeme in the mutation table", n, i)
 		}
 		for _, s := range lx {
+			if n == "EOF" {
+				continue // a NUL rune: EOF for the lexer as it is, ILLEGAL once lex-nul-truncates-input is fixed
+			}
 			toks, _, _ := c03ImplLex(s)
 			if len(toks) == 0 || toks[0].Type != n {
 				return nil, fmt.Errorf("representative %q of token type %s lexes as %v", s, n, toks)
@@ -958,7 +1066,7 @@ var c03FixedCorpus = []mutCase{
 }
 
 func runC03(cfg Config, r *Result) {
-	r.Rule = "inputs: evy programs of the repository (code blocks of docs/*.md, every *.evy file), their mutations (every prefix at token and rune boundaries, single/double token deletion, insertion and substitution by a lexeme of every token kind, token swaps, duplicated/deleted/swapped lines, splices of two programs), statement-skeleton soups, token soups, string literals built from escape fragments, random Unicode and random bytes (invalid UTF-8, NUL, CR). Every input goes through the lexer oracle (offsets strictly increasing from 0 to the input length, Line/Col recomputed independently) and the parser oracle (parser.Parse with evaluator.BuiltinDecls in a worker process: no panic, returns within 2 s, program or non-empty parser.Errors, every error located at the start of a token of the input); a sample goes through the extracted Coq lexer model and is compared token by token (type, literal bytes, Offset, Line, Col). non-trivial = the input has at least 3 tokens besides EOF; distinct = distinct source texts"
+	r.Rule = "inputs: evy programs of the repository (code blocks of docs/*.md, every *.evy file), their mutations (every prefix at token and rune boundaries, single/double token deletion, insertion and substitution by a lexeme of every token kind, token swaps, duplicated/deleted/swapped lines, splices of two programs), statement-skeleton soups, token soups, string literals built from escape fragments, random Unicode and random bytes (invalid UTF-8, NUL, CR). Every input goes through the lexer oracle (offsets strictly increasing from 0 to the input length, Line/Col recomputed independently) and the parser oracle (parser.Parse with evaluator.BuiltinDecls in a worker process: no panic, returns within 2 s (a hang is reported only if confirmed twice on a fresh process with a 10 s limit), program or non-empty parser.Errors, every error located at the start of a token of the input); a sample goes through the extracted Coq lexer model and is compared token by token (type, literal bytes, Offset, Line, Col). non-trivial = the input has at least 3 tokens besides EOF; distinct = distinct source texts"
 
 	if cfg.Replay != "" {
 		c03Replay(cfg, r)
@@ -972,7 +1080,7 @@ func runC03(cfg Config, r *Result) {
 	if unicode.IsLetter(0) || unicode.IsDigit(0) {
 		r.Violate(Violation{Kind: "correspondence", Key: "oracle-hypothesis", Detail: "unicode.IsLetter(0) or IsDigit(0) holds: hypothesis uni_nul of the lexer theorems is false"})
 	}
-	model, err := StartModel("lexer")
+	model, err := StartModel(c03ModelName(r))
 	if err != nil {
 		r.Violate(Violation{Kind: "correspondence", Key: "model-start", Detail: err.Error()})
 		return
@@ -985,22 +1093,91 @@ func runC03(cfg Config, r *Result) {
 		r.Violate(Violation{Kind: "correspondence", Key: "corpus-missing", Detail: fmt.Sprintf("only %d corpus programs found under %s", len(corpus), repoRoot())})
 	}
 
+	nw := runtime.NumCPU()
+	if nw > 8 {
+		nw = 8
+	}
+	modelEvery := map[string]int{"corpus": 1, "program": 1, "prefix-rune": 3, "prefix-token": 6, "string-escapes": 1, "random-unicode": 1, "random-bytes": 1, "token-soup": 1, "stmt-soup": 4, "deep-nest": 2}
+	streamN := map[string]int{}
+	shrunk := map[string]bool{}
+	var shrinker *parseWorker
+	defer func() {
+		if shrinker != nil {
+			shrinker.kill()
+		}
+	}()
+	var tParse, tLex time.Duration
+	total := 0
 	var cases []mutCase
-	cases = append(cases, c03FixedCorpus...)
+	// flush runs (b) the parser oracle in worker processes and (a) the lexer oracle on every
+	// pending case, and the model correspondence on a per-stream sample.
+	flush := func() {
+		srcs := make([]string, len(cases))
+		for i, c := range cases {
+			srcs[i] = c.Src
+		}
+		t0 := time.Now()
+		reps := parsePool(srcs, nw)
+		tParse += time.Since(t0)
+		t0 = time.Now()
+		for i, c := range cases {
+			streamN[c.Stream]++
+			every, ok := modelEvery[c.Stream]
+			if !ok {
+				every = 12
+			}
+			var m *Model
+			if every == 1 || streamN[c.Stream]%every == 0 {
+				m = model
+			}
+			toks := c03Lex(c.Src, c.Stream, m, r)
+			r.Count(c.Src, len(toks) >= 4)
+			r.Dist("stream:" + c.Stream)
+			rep := reps[i]
+			r.Dist("parse:" + rep.Status)
+			if rep.Status == "violation" {
+				r.Dist("parse-violation:" + rep.Key)
+				src, note := c.Src, ""
+				if !shrunk[rep.Key] && !rep.Fatal {
+					shrunk[rep.Key] = true
+					src = shrinkCase(c.Src, rep.Key, &shrinker)
+					note = fmt.Sprintf(" (shrunk from a %d-byte input)", len(c.Src))
+				}
+				r.Violate(Violation{Kind: "property", Key: rep.Key, Detail: rep.Detail + " [stream " + c.Stream + "]" + note, Input: srcInput(src),
+					Impl: map[string]any{"frames": rep.Frames}})
+			}
+			if len(r.Samples) < 4 && c.Stream != "corpus" && c.Stream != "program" && (total+i)%97 == 0 {
+				r.Sample(map[string]any{"stream": c.Stream, "src": strconv.Quote(c.Src), "tokens": len(toks), "parse": rep.Status, "errors": rep.NErrs, "first_error": rep.FirstErr})
+			}
+		}
+		tLex += time.Since(t0)
+		total += len(cases)
+		cases = cases[:0]
+	}
+	add := func(c mutCase) {
+		cases = append(cases, c)
+		if len(cases) >= 40000 {
+			flush()
+		}
+	}
+
+	for _, c := range c03FixedCorpus {
+		add(c)
+	}
 	if files, _ := filepath.Glob(filepath.Join(os.Getenv("VERIF_ROOT"), "corpus", "C03", "*")); len(files) > 0 {
 		sort.Strings(files)
 		for _, f := range files {
 			if b, err := os.ReadFile(f); err == nil {
-				cases = append(cases, mutCase{string(b), "corpus"})
+				add(mutCase{string(b), "corpus"})
 			}
 		}
 	}
 	for _, p := range corpus {
-		cases = append(cases, mutCase{p.Src, "program"})
+		add(mutCase{p.Src, "program"})
 	}
 	// mutation stream
-	nmut := cfg.N(14, 160)   // programs mutated
-	budget := cfg.N(25, 120) // per-family budget per program
+	nmut := cfg.N(14, 70)    // programs mutated
+	budget := cfg.N(25, 100) // per-family budget per program
 	small := []corpusProg{}
 	for _, p := range corpus {
 		if n := len(p.Src); n >= 20 && n <= cfg.N(700, 2500) {
@@ -1008,71 +1185,129 @@ func runC03(cfg Config, r *Result) {
 		}
 	}
 	for k := 0; k < nmut && len(small) > 0; k++ {
-		mutate(small[rng.Intn(len(small))], kinds, rng, budget, &cases)
+		var ms []mutCase
+		mutate(small[rng.Intn(len(small))], kinds, rng, budget, &ms)
+		for _, c := range ms {
+			add(c)
+		}
 	}
 	for k := 0; k < cfg.N(150, 3000) && len(small) > 1; k++ { // splices
 		a, b := spans(small[rng.Intn(len(small))].Src), spans(small[rng.Intn(len(small))].Src)
 		i, j := rng.Intn(len(a)+1), rng.Intn(len(b)+1)
-		cases = append(cases, mutCase{strings.Join(a[:i], "") + strings.Join(b[j:], ""), "splice"})
+		add(mutCase{strings.Join(a[:i], "") + strings.Join(b[j:], ""), "splice"})
+	}
+	for k := 0; k < cfg.N(2500, 60000); k++ {
+		add(mutCase{genStmtSoup(rng, 1+rng.Intn(5)), "stmt-soup"})
 	}
 	for k := 0; k < cfg.N(1500, 40000); k++ {
-		cases = append(cases, mutCase{genStmtSoup(rng, 1+rng.Intn(5)), "stmt-soup"})
-	}
-	for k := 0; k < cfg.N(1500, 40000); k++ {
-		cases = append(cases, mutCase{genSoup(rng, 1+rng.Intn(14)), "token-soup"})
+		add(mutCase{genSoup(rng, 1+rng.Intn(14)), "token-soup"})
 	}
 	for k := 0; k < cfg.N(600, 15000); k++ {
-		cases = append(cases, mutCase{genStringLit(rng), "string-escapes"})
+		add(mutCase{genStringLit(rng), "string-escapes"})
 	}
 	for k := 0; k < cfg.N(500, 10000); k++ {
-		cases = append(cases, mutCase{genUnicode(rng, 1+rng.Intn(40)), "random-unicode"})
+		add(mutCase{genUnicode(rng, 1+rng.Intn(40)), "random-unicode"})
 	}
 	for k := 0; k < cfg.N(500, 10000); k++ {
-		cases = append(cases, mutCase{genBytes(rng, 1+rng.Intn(60)), "random-bytes"})
+		add(mutCase{genBytes(rng, 1+rng.Intn(60)), "random-bytes"})
 	}
+	for k := 0; k < cfg.N(40, 400); k++ {
+		add(mutCase{genDeepNest(rng, cfg.N(1500, 6000)), "deep-nest"})
+	}
+	flush()
+	r.Note("parser oracle: %d inputs in %.1fs on %d workers; lexer oracle + model correspondence: %.1fs", total, tParse.Seconds(), nw, tLex.Seconds())
+}
 
-	// (b) parser oracle on everything, in worker processes
-	srcs := make([]string, len(cases))
-	for i, c := range cases {
-		srcs[i] = c.Src
+// genDeepNest: deeply nested (balanced or cut) brackets; depth is far below what exhausts the Go stack.
+func genDeepNest(rng *rand.Rand, maxDepth int) string {
+	d := 50 + rng.Intn(maxDepth)
+	open, cl := []string{"(", "[", "{a:", "(-", "[1 ", "(f "}, []string{")", "]", "}", ")", "]", ")"}
+	k := rng.Intn(len(open))
+	var b strings.Builder
+	b.WriteString([]string{"x := ", "print ", "f ", "x = ", ""}[rng.Intn(5)])
+	mixed := rng.Intn(3) == 0
+	ks := make([]int, d)
+	for i := 0; i < d; i++ {
+		if mixed {
+			k = rng.Intn(len(open))
+		}
+		ks[i] = k
+		b.WriteString(open[k])
 	}
-	nw := runtime.NumCPU()
-	if nw > 8 {
-		nw = 8
+	b.WriteString([]string{"1", "", "x", "\"a\""}[rng.Intn(4)])
+	closeN := d
+	if rng.Intn(3) == 0 {
+		closeN = rng.Intn(d + 1)
 	}
-	t0 := time.Now()
-	reps := parsePool(srcs, nw)
-	r.Note("parser oracle: %d inputs in %.1fs on %d workers", len(srcs), time.Since(t0).Seconds(), nw)
+	for i := 0; i < closeN; i++ {
+		b.WriteString(cl[ks[d-1-i]])
+	}
+	b.WriteString("\n")
+	return b.String()
+}
 
-	// (a) lexer oracle on everything; model correspondence on a sample
-	modelEvery := map[string]int{"corpus": 1, "program": 1, "prefix-rune": 3, "prefix-token": 6, "string-escapes": 1, "random-unicode": 1, "random-bytes": 1, "token-soup": 1, "stmt-soup": 4}
-	t0 = time.Now()
-	streamN := map[string]int{}
-	for i, c := range cases {
-		streamN[c.Stream]++
-		every, ok := modelEvery[c.Stream]
-		if !ok {
-			every = cfg.N(12, 12)
+// shrinkCase minimises src by delta debugging (whole lines, then tokens) while parser.Parse
+// keeps failing with the same key. At most 600 oracle calls.
+func shrinkCase(src, key string, w **parseWorker) string {
+	calls := 0
+	check := func(s string) bool {
+		if calls >= 600 {
+			return false
 		}
-		var m *Model
-		if streamN[c.Stream]%every == 0 || every == 1 {
-			m = model
+		calls++
+		if *w == nil {
+			nw, err := startParseWorker()
+			if err != nil {
+				return false
+			}
+			*w = nw
 		}
-		toks := c03Lex(c.Src, c.Stream, m, r)
-		r.Count(c.Src, len(toks) >= 4)
-		r.Dist("stream:" + c.Stream)
-		rep := reps[i]
-		r.Dist("parse:" + rep.Status)
-		if rep.Status == "violation" {
-			r.Dist("parse-violation:" + rep.Key)
-			r.Violate(Violation{Kind: "property", Key: rep.Key, Detail: rep.Detail + " [stream " + c.Stream + "]", Input: srcInput(c.Src),
-				Impl: map[string]any{"frames": rep.Frames}})
+		rep, alive := (*w).ask(s)
+		if !alive {
+			(*w).kill()
+			*w = nil
 		}
-		if len(r.Samples) < 4 && c.Stream != "corpus" && c.Stream != "program" && i%97 == 0 {
-			r.Sample(map[string]any{"stream": c.Stream, "src": strconv.Quote(c.Src), "tokens": len(toks), "parse": rep.Status, "errors": rep.NErrs, "first_error": rep.FirstErr})
-		}
+		return rep.Status == "violation" && rep.Key == key
 	}
-	r.Note("lexer oracle + model correspondence: %.1fs", time.Since(t0).Seconds())
+	ddmin := func(parts []string) []string {
+		n := 2
+		for len(parts) >= 2 && calls < 600 {
+			chunk := (len(parts) + n - 1) / n
+			reduced := false
+			for i := 0; i < len(parts); i += chunk {
+				j := min(i+chunk, len(parts))
+				cand := append(append([]string{}, parts[:i]...), parts[j:]...)
+				if len(cand) > 0 && check(strings.Join(cand, "")) {
+					parts, reduced = cand, true
+					n = max(n-1, 2)
+					break
+				}
+			}
+			if !reduced {
+				if n >= len(parts) {
+					break
+				}
+				n = min(2*n, len(parts))
+			}
+		}
+		return parts
+	}
+	cur := strings.Join(ddmin(strings.SplitAfter(src, "\n")), "")
+	return strings.Join(ddmin(spans(cur)), "")
+}
+
+// c03ModelName replays the witness of C03_lex_tiles_whole_input_refuted (a, NUL, b) on the
+// implementation and picks the model it has to correspond to: `lexer` (Lexer.lex, mirrors the
+// NUL-is-EOF defect) while the witness reproduces, `lexer-fixed` (Lexer.lex_fixed, for which the
+// unguarded tiling theorem is proved) once the lexer treats NUL as an ordinary rune.
+func c03ModelName(r *Result) string {
+	toks, _, _ := c03ImplLex("a\x00b")
+	if len(toks) == 2 && toks[1].Type == "EOF" && toks[1].Off == 1 {
+		r.Note("lexer model: `lexer` (the implementation reproduces the witness of C03_lex_tiles_whole_input_refuted: a NUL b lexes as IDENT EOF@1)")
+		return "lexer"
+	}
+	r.Note("lexer model: `lexer-fixed` (the implementation no longer ends the token stream at U+0000; theorems C03_lex_fixed_* apply)")
+	return "lexer-fixed"
 }
 
 func countDocs(c []corpusProg) int {
@@ -1103,7 +1338,7 @@ func c03Replay(cfg Config, r *Result) {
 		r.Note("replay file carries no src_hex input; nothing to re-run")
 		return
 	}
-	model, err := StartModel("lexer")
+	model, err := StartModel(c03ModelName(r))
 	if err != nil {
 		r.Violate(Violation{Kind: "correspondence", Key: "model-start", Detail: err.Error()})
 		return
